@@ -37,8 +37,9 @@ fn available(confirmed: &[u64], n_extra: u64) -> Vec<u64> {
             v.push(id)
         }
     };
-    push(F, !has(D));
+    push(F, !has(D) && !has(D2));
     push(D, !has(F));
+    push(D2, !has(F));
     push(M, has(F) && !has(U));
     push(U, has(F) && !has(M));
     push(S, has(U));
@@ -113,6 +114,11 @@ impl Group for C14 {
             // HTLC spend and second-level spend, disconnected one by one
             mk(&[("add", "c", &[F]), ("add", "c", &[U]), ("add", "c", &[T1]), ("add", "c", &[V1]),
                  ("remove", "c", &[V1]), ("remove", "c", &[T1]), ("add", "c", &[T1, V1]), ("remove", "c", &[T1, V1])]),
+            // two independent double-spends at different heights, reorg of the later one only (seeded change C14/2)
+            mk(&[("add", "c", &[D]), ("add", "c", &[]), ("add", "c", &[D2]), ("remove", "c", &[D2]), ("add", "c", &[]), ("remove", "c", &[]), ("remove", "c", &[]), ("remove", "c", &[D])]),
+            // full sweep over several blocks, reorg of the last second-level sweep only (seeded change C15/1)
+            mk(&[("add", "c", &[F]), ("add", "c", &[U]), ("add", "c", &[S, T1]), ("add", "c", &[T2, V1]), ("add", "c", &[V2]),
+                 ("remove", "c", &[V2]), ("add", "c", &[]), ("add", "c", &[V2]), ("remove", "c", &[V2]), ("remove", "c", &[]), ("remove", "c", &[T2, V1])]),
             // everything in one block
             mk(&[("add", "c", &[F, U, S, T12, V12A, V12B]), ("remove", "c", &[F, U, S, T12, V12A, V12B]), ("add", "c", &[D])]),
         ]
@@ -120,6 +126,99 @@ impl Group for C14 {
     fn gen_case(&self, rng: &mut Rng, tier: Tier) -> Vec<String> {
         let mut ops = vec![init_line()];
         let mut plan = Plan::default();
+        let delivery = |rng: &mut Rng| if rng.chance(1, 3) { "s" } else { "c" };
+        let rdelivery = |rng: &mut Rng| if super::c13::REMOVE_EXPECTS_TIP_HASH && rng.chance(1, 3) { "s" } else { "c" };
+        match rng.below(10) {
+            // directed family A: two independent double-spends of different funding inputs at different
+            // heights, then a reorg of a suffix that undoes only the later one (or both), then more blocks
+            0 | 1 => {
+                let (first, second) = if rng.chance(1, 2) { (D, D2) } else { (D2, D) };
+                let mut push = |ops: &mut Vec<String>, plan: &mut Plan, rng: &mut Rng, blk: Vec<u64>| {
+                    ops.push(line("add", delivery(rng), &blk));
+                    plan.blocks.push(blk);
+                };
+                for _ in 0..rng.below(2) { push(&mut ops, &mut plan, rng, vec![]); }
+                let b1 = if rng.chance(1, 4) { vec![first, X0] } else { vec![first] };
+                push(&mut ops, &mut plan, rng, b1);
+                let gap = rng.below(3);
+                for _ in 0..gap { push(&mut ops, &mut plan, rng, vec![]); }
+                push(&mut ops, &mut plan, rng, vec![second]);
+                let tail = rng.below(3);
+                for _ in 0..tail { push(&mut ops, &mut plan, rng, vec![]); }
+                // undo exactly down to (and including) the second double-spend, sometimes one block more / all
+                let depth = match rng.below(4) { 0 => tail + 1 + gap + 1, 1 => tail + 1 + rng.below(gap + 1), _ => tail + 1 };
+                for _ in 0..depth.min(plan.blocks.len() as u64) {
+                    let blk = plan.blocks.pop().unwrap();
+                    ops.push(line("remove", rdelivery(rng), &blk));
+                }
+                for _ in 0..rng.below(3) {
+                    let blk = gen_block(rng, &plan, true);
+                    ops.push(line("add", delivery(rng), &blk));
+                    plan.blocks.push(blk);
+                }
+                return ops;
+            }
+            // directed family B: funding, unilateral close, then the sweeps (our output, HTLC spends, second-level
+            // spends) spread over several blocks until everything is swept; reorg of any suffix; optionally re-mined
+            2 | 3 | 4 => {
+                let mut first = vec![F];
+                if rng.chance(1, 3) { first.push(U); }
+                ops.push(line("add", delivery(rng), &first));
+                plan.blocks.push(first.clone());
+                if !first.contains(&U) {
+                    ops.push(line("add", delivery(rng), &[U]));
+                    plan.blocks.push(vec![U]);
+                }
+                let mut n_sweep_blocks = 0u64;
+                loop {
+                    let av: Vec<u64> = available(&plan.confirmed(), 0);
+                    if av.is_empty() { break; }
+                    let mut blk = Vec::new();
+                    let mut conf = plan.confirmed();
+                    for _ in 0..rng.range(1, 2) {
+                        let av = available(&conf, 0);
+                        if av.is_empty() { break; }
+                        let x = *rng.pick(&av);
+                        blk.push(x);
+                        conf.push(x);
+                    }
+                    if rng.chance(1, 4) { ops.push(line("add", delivery(rng), &[])); plan.blocks.push(vec![]); n_sweep_blocks += 1; }
+                    ops.push(line("add", delivery(rng), &blk));
+                    plan.blocks.push(blk);
+                    n_sweep_blocks += 1;
+                    if rng.chance(1, 8) { break; } // sometimes stop before everything is swept
+                }
+                let depth = rng.range(1, n_sweep_blocks.max(1).min(6));
+                let mut removed = Vec::new();
+                for _ in 0..depth {
+                    let blk = plan.blocks.pop().unwrap();
+                    ops.push(line("remove", rdelivery(rng), &blk));
+                    removed.push(blk);
+                }
+                match rng.below(3) {
+                    0 => {}
+                    1 => {
+                        // re-mine the same transactions in a different grouping
+                        let mut all: Vec<u64> = removed.iter().rev().flatten().cloned().collect();
+                        while !all.is_empty() {
+                            let k = (rng.range(1, 3) as usize).min(all.len());
+                            let blk: Vec<u64> = all.drain(..k).collect();
+                            ops.push(line("add", delivery(rng), &blk));
+                            plan.blocks.push(blk);
+                        }
+                    }
+                    _ => {
+                        for _ in 0..rng.range(1, 3) {
+                            let blk = gen_block(rng, &plan, true);
+                            ops.push(line("add", delivery(rng), &blk));
+                            plan.blocks.push(blk);
+                        }
+                    }
+                }
+                return ops;
+            }
+            _ => {}
+        }
         let steps = rng.range(3, if tier == Tier::Quick { 9 } else { 16 });
         let aggressive = rng.chance(2, 3);
         for _ in 0..steps {
@@ -205,7 +304,7 @@ impl Group for C14 {
                                     relevant_reorg = true;
                                     co.tags.insert("remove:relevant".into());
                                 }
-                                for (id, tag) in [(F, "funding"), (D, "doublespend"), (M, "mutual"), (U, "unilateral"), (S, "sweep"),
+                                for (id, tag) in [(F, "funding"), (D, "doublespend"), (D2, "doublespend"), (M, "mutual"), (U, "unilateral"), (S, "sweep"),
                                                   (T1, "htlc"), (T2, "htlc"), (T12, "htlc"), (V1, "second-level"), (V2, "second-level"),
                                                   (V12A, "second-level"), (V12B, "second-level")] {
                                     if ids.contains(&id) { co.tags.insert(format!("reorg-of:{}", tag)); }
